@@ -1,5 +1,6 @@
 import XpmVerif.Basic.JsonUtil
 import XpmVerif.Model.Validate
+import XpmVerif.Model.ValidateMro
 /-! Line-protocol driver for M6/validate (C15).  `lake env lean --run Drive/C15.lean < ops.jsonl` -/
 open Lean XpmVerif XpmVerif.J XpmVerif.Validate
 
@@ -91,6 +92,9 @@ def graphOf (j : Json) : Graph :=
   { classes := (arrF j "classes").map (fun c => (arr c).map argOf), nodes := (arrF j "nodes").map nodeOf,
     tasks := (arrF j "tasks").map nat }
 
+def classDeclOf (j : Json) : ClassDecl :=
+  { bases := (arrF j "bases").map nat, mro := (arrF j "mro").map nat, own := (arrF j "own").map (fun a => (strF a "name", argOf a)) }
+
 def opOf (j : Json) : HOp :=
   if strF j "o" == "submit" then .submit (natF j "n") else .assign (natF j "n") (natF j "k") (valOf (fld j "v"))
 
@@ -144,6 +148,11 @@ def step (_ : Unit) (j : Json) : Unit × Json :=
         ("flags2", vis2.length), ("submit", outJ so), ("jobs", s.jobs.length),
         ("missing_deep", reachMissing g (allSuccs g) [root] []),
         ("missing_walk", reachMissing g (succs I g) [root] [])]
+    | "lib" =>
+      let lib : Lib := (arrF j "classes").map classDeclOf
+      let l := if strF j "lin" == "mro" then Lin.mro else Lin.dfs
+      Json.mkObj [("tables", Json.arr ((List.range lib.length).map (fun c =>
+        Json.arr ((argTable lib l c).map (fun e => Json.arr #[Json.str e.1, (e.2.1 : Json), (e.2.2.required : Json)])).toArray)).toArray)]
     | "history" =>
       let s0 : HState := { g := graphOf j }
       Json.mkObj [("steps", Json.arr (runHist I s0 ((arrF j "ops").map opOf)).toArray)]
